@@ -82,16 +82,18 @@ def programs(tier):
         recvs = [4, 7, 65536]
         policies = ["all", "1", "7"]
     else:
-        msgsets = [([0, 1, 100], [16384]), ([16385, 1], [40000]), ([40000, 16384, 1], [100, 0]),
-                   ([1], [1]), ([], [16385]), ([70000], [])]
-        recvs = [1, 7, 65536]
-        policies = ["all", "1", "2", "7"]
+        # (same scenario shapes as the quick tier plus a few sizes; the thorough tier goes deeper
+        # per scenario - two deviations, more executions - rather than wider)
+        msgsets = [([1, 100], [0, 16385]), ([16384], [1]), ([0, 3], []), ([2, 5, 3], [4, 4]),
+                   ([70000], []), ([0, 1, 100], [16384]), ([1], [1])]
+        recvs = [4, 7, 65536]
+        policies = ["all", "1", "7"]
     for ver in ("1.2", "1.3"):
         for sc in (True, False):
             for cm, sm in msgsets:
                 for rs in recvs:
                     for pol in policies:
-                        if tier == "quick" and sum(cm) + sum(sm) > 2000 and (pol == "1" or rs < 100):
+                        if sum(cm) + sum(sm) > 2000 and (pol == "1" or rs < 100):
                             continue
                         if rs == 4 and sum(cm) + sum(sm) > 100:
                             continue
